@@ -193,7 +193,7 @@ def five_slot_rule(cfg, R, lib, T, rid='A5'):
 def data_rules(cfg, R, lib, T, ids=('A1', 'A2', 'A3', 'A4'), floors=(280, 60, 360, 360), db='zonedb', what='every basic'):
     A1, A2, A3, A4 = ids
     R.rule(A1, '%s era UNTIL is a whole year with suffix w; eras strictly increasing; last era is open' % what, floor=floors[0])
-    R.rule(A2, '%s policy: at most one rule per month among the rules active in any year startYear-1..untilYear' % what, floor=floors[1])
+    R.rule(A2, '%s policy: at most one rule per month among the rules active in any year from the first rule to untilYear' % what, floor=floors[1])
     R.rule(A3, '%s policy: no rule transition falls on January 1' % what, floor=floors[2])
     R.rule(A4, '%s policy: every rule letter is a single printable character' % what, floor=floors[3])
     sufw = lib.const('ace_time::basic::ZoneContext::kSuffixW')
@@ -219,7 +219,10 @@ def data_rules(cfg, R, lib, T, ids=('A1', 'A2', 'A3', 'A4'), floors=(280, 60, 36
         rules = T.policy_rules(pname)
         c = '%s::%s' % (db, pname)
         R.instance(A2, c, T.policies[pname].loc)
-        for y in range(start - 1, until + 1):
+        # every year the rules cover, not only the generated ones: the processor takes "the latest rule before" a year by (year, month)
+        # alone, so two rules of one month in a year long past tie there as well
+        first = min([start - 1] + [2000 + r['fromYearTiny'] for r in rules if r['fromYearTiny'] > -127])
+        for y in range(first, until + 1):
             months = {}
             for r in rules:
                 if r['fromYearTiny'] <= y - 2000 <= r['toYearTiny']:
